@@ -231,36 +231,27 @@ Proof.
 Qed.
 
 
-(* ---- P3: the bodies and arms a good tree registers are good, and a body that
-   ends in EndExpression (a nested expression's) is not silent ---- *)
-Definition tree_good (t : tree) : Prop := drops_arms t = false /\ has_empty_body t = false.
+(* ---- P3: the bodies and arms a good tree registers are good ---- *)
+Definition tree_good (t : tree) : Prop := drops_arms t = false.
 
 Definition ends_shape (e : list instr) : Prop :=
   e = default_end \/ (exists j, e = [(I_JumpTo, ONum j)]) \/ (exists j, e = [(I_Tis, ONone); (I_JumpTo, ONum j)]).
 
-Definition pend_live (p : pend) : Prop :=
-  tree_good (p_tree p) /\ ends_shape (p_end p) /\ (p_end p = default_end -> silent (p_tree p) = false).
+Definition pend_live (p : pend) : Prop := tree_good (p_tree p) /\ ends_shape (p_end p).
 
 Lemma tree_good_children : forall ix d l r, tree_good (T ix d l r) ->
   (forall a, l = Some a -> tree_good a) /\ (forall b, r = Some b -> tree_good b).
 Proof.
-  intros ix d l r [Hd He]. cbn [drops_arms has_empty_body] in *.
+  intros ix d l r Hd. unfold tree_good in *. cbn [drops_arms] in *.
   apply orb_false_iff in Hd. destruct Hd as [Hd Hdr]. apply orb_false_iff in Hd. destruct Hd as [_ Hdl].
-  apply orb_false_iff in He. destruct He as [He Her]. apply orb_false_iff in He. destruct He as [_ Hel].
-  split; intros x Hx; subst; cbn [opt_b] in *; split; assumption.
-Qed.
-
-Lemma tree_good_nested : forall ix d l rt, tree_good (T ix d l (Some rt)) -> kind_of d = KNested -> silent rt = false.
-Proof.
-  intros ix d l rt [_ He] Hk. cbn [has_empty_body] in He. rewrite Hk in He.
-  apply orb_false_iff in He. destruct He as [He _]. apply orb_false_iff in He. destruct He as [He _]. exact He.
+  split; intros x Hx; subst; cbn [opt_b] in *; assumption.
 Qed.
 
 Lemma items_to_pends_live : forall c jt its, Forall (fun it => tree_good (fst it)) its ->
   Forall pend_live (map (fun it => mkP (fst it) c (snd it) [(I_JumpTo, ONum jt)]) its).
 Proof.
   intros c jt its H. induction H as [|it its Hit _ IH]; cbn [map]; constructor; [|exact IH].
-  unfold pend_live. cbn [p_tree p_end]. split; [exact Hit | split; [right; left; eexists; reflexivity | intros Hd; discriminate Hd]].
+  unfold pend_live. cbn [p_tree p_end]. split; [exact Hit | right; left; eexists; reflexivity].
 Qed.
 
 Lemma inl_live : forall t, tree_good t -> forall rj cx s s' ps items,
@@ -270,7 +261,6 @@ Proof.
   induction t as [ix d l r IHl IHr] using tree_ind'.
   intros Hg rj cx s s' ps items H.
   destruct (tree_good_children _ _ _ _ Hg) as [Hgl Hgr].
-  pose proof (tree_good_nested ix d l) as Hnest.
   cbn [inl] in H. cbv zeta in H.
   destruct (kind_of d) eqn:Hk.
   all: repeat inv_ok.
@@ -287,20 +277,16 @@ Proof.
   all: repeat split; auto.
   all: try solve [ constructor ].
   all: try solve [ constructor; [| constructor ]; unfold pend_live; cbn [p_tree p_end fst];
-                   split; [ first [ apply Hgl; reflexivity | apply Hgr; reflexivity ] | split ];
-                   [ first [ left; reflexivity | right; left; eexists; reflexivity | right; right; eexists; reflexivity ]
-                   | first [ intros Hd; discriminate Hd | intros _; eapply Hnest; [exact Hg | exact Hk] ] ] ].
+                   split; [ first [ apply Hgl; reflexivity | apply Hgr; reflexivity ]
+                          | first [ left; reflexivity | right; left; eexists; reflexivity | right; right; eexists; reflexivity ] ] ].
   all: try solve [ constructor; [ cbn [fst]; first [ apply Hgl; reflexivity | apply Hgr; reflexivity ] | constructor ] ].
-  - (* nested expression with a body *)
-    constructor; [| constructor ]. unfold pend_live. cbn [p_tree p_end].
-    split; [apply Hgr; reflexivity | split; [left; reflexivity | intros _; eapply Hnest; [exact Hg | reflexivity]]].
-  - (* else-chain head: the arms become bodies ending in JumpTo *)
-    match goal with
-    | Hi : ?p0 :: ?l1 = ?i1 ++ ?i2, H1 : Forall _ ?i1, H2 : Forall _ ?i2 |- _ =>
-      assert (Hits : Forall (fun it => tree_good (fst it)) (p0 :: l1))
-        by (rewrite Hi; apply Forall_app; split; assumption)
-    end.
-    exact (items_to_pends_live (cx_containing cx) (JL c) (p0 :: l1) Hits).
+  (* else-chain head: the arms become bodies ending in JumpTo *)
+  match goal with
+  | Hi : ?p0 :: ?l1 = ?i1 ++ ?i2, H1 : Forall _ ?i1, H2 : Forall _ ?i2 |- _ =>
+    assert (Hits : Forall (fun it => tree_good (fst it)) (p0 :: l1))
+      by (rewrite Hi; apply Forall_app; split; assumption)
+  end.
+  exact (items_to_pends_live (cx_containing cx) (JL c) (p0 :: l1) Hits).
 Qed.
 
 
